@@ -68,8 +68,13 @@ def run_case(case):
 
         rank = int(rng.integers(1, 5))
         shape = tuple(int(x) for x in rng.integers(1, 6, rank))
-        dt = ["float", "int", "ties", "ninf", "near"][int(rng.integers(0, 5))]
-        if dt == "near":
+        dt = ["float", "int", "ties", "ninf", "near", "huge"][int(rng.integers(0, 6))]
+        if dt == "huge":
+            # finite values of very large magnitude, mostly far BELOW any single-precision bound
+            # (CRRA utility with high risk aversion): only -inf is below all of them
+            a = -(10.0 ** rng.uniform(30, 300, shape)) if x64 else -(10.0 ** rng.uniform(10, 37, shape))
+            a = np.where(rng.random(shape) < 0.15, -a, a)
+        elif dt == "near":
             # near ties: distinct values that agree to ~6 digits (inside any "isclose" tolerance,
             # far above rounding): only the true maximiser has a value EQUAL to the maximum
             a = rng.integers(1, 4, shape).astype(float) * (1.0 + rng.integers(-4, 5, shape) * (3e-7 if x64 else 6e-7))
